@@ -113,6 +113,7 @@ class C06Bounded(Bounded):
         for kind, cls, doc in (("rule", SigmaRule, RULE_OK), ("correlation", SigmaCorrelationRule, CORR), ("correlation", SigmaCorrelationRule, CORR2), ("correlation", SigmaCorrelationRule, CORR3), ("filter", SigmaFilter, FILT),
                                *[("correlation", SigmaCorrelationRule, m) for m in more],
                                ("rule", SigmaRule, {**RULE_OK, "date": datetime.date(2024, 1, 2), "modified": "2024/01/03"}),
+                               ("rule", SigmaRule, {**RULE_OK, "title": "DT", "date": datetime.datetime(2024, 1, 2, 10, 30), "modified": datetime.datetime(2024, 1, 3, 1, 2, 3, tzinfo=datetime.timezone(datetime.timedelta(hours=2)))}),
                                ("rule", SigmaRule, {**RULE_OK, "title": "LS", "logsource": {"category": "c", "definition": "needs audit policy x", "myattr": "x", "other": "y"}})):
             ev += 1
             nontriv += 1
